@@ -36,12 +36,40 @@ def _root_attr(node, selfname):
     return None
 
 
+def self_aliases(fi):
+    """Local names that may denote the receiver (`x = self`, `x = self if .. else ..`)."""
+    selfname = _self_name(fi)
+    if selfname is None:
+        return set()
+    names = {selfname}
+    changed = True
+    while changed:
+        changed = False
+        for n in ast.walk(fi.node):
+            if isinstance(n, ast.Assign) and len(n.targets) == 1 and isinstance(n.targets[0], ast.Name):
+                v = n.value
+                cands = [v.body, v.orelse] if isinstance(v, ast.IfExp) else [v]
+                if any(isinstance(c, ast.Name) and c.id in names for c in cands) and n.targets[0].id not in names:
+                    names.add(n.targets[0].id)
+                    changed = True
+    return names
+
+
+def _root_attr_any(node, names):
+    for nm in names:
+        r = _root_attr(node, nm)
+        if r is not None:
+            return r
+    return None
+
+
 def direct_effects(fi, model):
     """Attributes of self written directly in the body of method `fi` (closures included)."""
     selfname = _self_name(fi)
     out = {}
     if selfname is None:
         return out
+    aliases = self_aliases(fi)
     for n in ast.walk(fi.node):
         targets = []
         if isinstance(n, ast.Assign):
@@ -54,11 +82,11 @@ def direct_effects(fi, model):
         for t in targets:
             flat.extend(t.elts if isinstance(t, (ast.Tuple, ast.List)) else [t])
         for t in flat:
-            r = _root_attr(t, selfname)
+            r = _root_attr_any(t, aliases)
             if r is not None:
                 out.setdefault(r, []).append(n)
         if isinstance(n, ast.Call) and isinstance(n.func, ast.Attribute) and n.func.attr in MUTATOR_METHODS:
-            r = _root_attr(n.func.value, selfname)
+            r = _root_attr_any(n.func.value, aliases)
             if r is not None:
                 out.setdefault(r, []).append(n)
     return out
@@ -102,9 +130,10 @@ def receiver_effects(model):
                             add |= eff.get(ci.setters[a].qualname, set())
                     if (cn, a) in prop_alias:
                         add.add(prop_alias[(cn, a)])
+            aliases = self_aliases(fi)
             for n in ast.walk(fi.node):
                 if isinstance(n, ast.Call) and isinstance(n.func, ast.Attribute) and \
-                        isinstance(n.func.value, ast.Name) and n.func.value.id == selfname:
+                        isinstance(n.func.value, ast.Name) and n.func.value.id in aliases:
                     for cn in subclasses:
                         callee = model.lookup_method(cn, n.func.attr)
                         if callee is not None and not callee.is_static:
